@@ -44,6 +44,11 @@ def split_prog(src, variant):
     lines = src.splitlines()
     ins = [ln for ln in lines[1:] if " = " not in ln]
     defs = [ln.replace(" = ", " == ") for ln in lines[1:] if " = " in ln]
+    if variant % 4 == 2 and len(ins) >= 6:
+        # ... and every fourth program is linked from three files given side by side on the command line
+        a, b = len(ins) // 3, 2 * len(ins) // 3
+        return [("p1.mac", "\n".join([lines[0]] + ins[:a]) + "\n"), ("p2.mac", "\n".join(ins[a:b]) + "\n"),
+                ("p3.mac", "\n".join(ins[b:] + defs) + "\n")], None
     if variant % 4 != 1 or len(ins) < 4:
         return src, None
     h = len(ins) // 2
@@ -54,7 +59,9 @@ def split_prog(src, variant):
 def run_prog(task):
     rec, variant = task
     src, fs = split_prog(render_prog(rec, variant), variant)
-    r = asm([("prog.mac", src)], timeout=60, fs=fs)
+    r = asm(src if isinstance(src, list) else [("prog.mac", src)], timeout=60, fs=fs)
+    if isinstance(src, list):
+        src = "\n".join(f"; {n}\n{t}" for n, t in src)
     want = isa.words_bytes(rec["image"])
     if r["outcome"] == "ok" and r["code"] == want and r["base"] == rec["base"]:
         return None
